@@ -128,6 +128,17 @@ func (ic *ItemCache[K, V]) GetMany(ids ...K) ([]V, error) {
 }
 
 func (ic *ItemCache[K, T]) Count() int {
+	count, err := ic.CountOrError()
+	if err != nil {
+		log.Warn().Err(err).Msg("error counting item cache items in bucket")
+		return 0
+	}
+	return count
+}
+
+// Counts the items like Count but reports a storage error to the caller, a
+// write must fail on it like on any other storage error.
+func (ic *ItemCache[K, T]) CountOrError() (int, error) {
 	ic.itemsMu.Lock()
 	defer ic.itemsMu.Unlock()
 	bucketCount := 0
@@ -143,8 +154,7 @@ func (ic *ItemCache[K, T]) Count() int {
 		return nil
 	})
 	if err != nil {
-		log.Warn().Err(err).Msg("error counting item cache items in bucket")
-		return 0
+		return 0, err
 	}
 	cacheCount := 0
 	for _, item := range ic.items {
@@ -152,7 +162,7 @@ func (ic *ItemCache[K, T]) Count() int {
 			cacheCount++
 		}
 	}
-	return cacheCount + bucketCount
+	return cacheCount + bucketCount, nil
 }
 
 // Put an item in the cache, it will be marked as dirty and written to the bucket
